@@ -176,26 +176,26 @@ theorem aesCtr_roundtrip (h : CryptoLaws c) (k m nonce : Bytes) (hk : aesKeyOk k
   refine ⟨ctrXor c k nonce m, by simp [aesCtr, hk, hn], ctrXor_length h k nonce m, ?_⟩
   simp [aesCtr, hk, hn, Crypto.ctr_invol h k nonce m]
 
-/-- XTS on whole blocks (the stealing path of the model is covered by the correspondence sweep only) -/
-theorem aesXts_roundtrip_partial (h : CryptoLaws c) (k m tweak : Bytes) (hk : k.length = 32 ∨ k.length = 64)
+/-- XTS, data unit = the whole input of at least one block, ANY length ≥ 16: whole blocks as IEEE 1619 XTS
+    (`Crypto.xts_inv`), a trailing partial block by ciphertext stealing (what OpenSSL does; `xtsSteal_inv`) -/
+theorem aesXts_roundtrip (h : CryptoLaws c) (k m tweak : Bytes) (hk : k.length = 32 ∨ k.length = 64)
     (hd : (k.take (k.length / 2) == k.drop (k.length / 2)) = false) (ht : tweak.length = 16)
-    (hm : m.length % 16 = 0) :
+    (hm : 16 ≤ m.length) :
     ∃ ct, aesXtsEncrypt c k m tweak = .ok ct ∧ ct.length = m.length ∧ aesXtsDecrypt c k ct tweak = .ok m := by
   have hk' : (k.length == 32 || k.length == 64) = true := by rcases hk with h | h <;> simp [h]
-  have hm' : ¬ (0 < m.length ∧ m.length < 16) := by omega
-  have hc : xtsCheck k m tweak = none := by simp [xtsCheck, hk', hd, ht, hm']
-  have hl : (xtsEnc c (k.take (k.length / 2)) (k.drop (k.length / 2)) tweak m).length = m.length := by
-    rw [xtsEnc_length h]; omega
-  refine ⟨xtsEnc c (k.take (k.length / 2)) (k.drop (k.length / 2)) tweak m, ?_, hl, ?_⟩
-  · simp only [aesXtsEncrypt, hc, xtsSteal_aligned _ _ _ _ hm]; rfl
-  · have hm2 : ¬ (0 < (xtsEnc c (k.take (k.length / 2)) (k.drop (k.length / 2)) tweak m).length ∧
-        (xtsEnc c (k.take (k.length / 2)) (k.drop (k.length / 2)) tweak m).length < 16) := by rw [hl]; exact hm'
-    have hc2 : xtsCheck k (xtsEnc c (k.take (k.length / 2)) (k.drop (k.length / 2)) tweak m) tweak = none := by
-      simp [xtsCheck, hk', hd, ht, hm2]
-    simp only [aesXtsDecrypt, hc2, xtsSteal_aligned _ _ _ _ (show _ % 16 = 0 by rw [hl]; exact hm)]
-    have := Crypto.xts_inv h (k.take (k.length / 2)) (k.drop (k.length / 2)) tweak m hm
-    simp only [xtsDec, xtsDecWith] at this
-    rw [this]
+  have hc : ∀ x : Bytes, 16 ≤ x.length → xtsCheck k x tweak = none := by
+    intro x hx
+    have : ¬ (0 < x.length ∧ x.length < 16) := by omega
+    simp [xtsCheck, hk', hd, ht, this]
+  obtain ⟨hl, hinv⟩ := xtsSteal_inv (h.dec_enc (k.take (k.length / 2))) (h.enc_len (k.take (k.length / 2)))
+    (c.encBlk (k.drop (k.length / 2)) tweak) m (h.enc_len _ _) hm
+  refine ⟨_, by simp only [aesXtsEncrypt, hc m hm], hl, ?_⟩
+  simp only [aesXtsDecrypt, hc _ (by rw [hl]; exact hm), hinv]
+
+/-- on whole blocks the wrapper is plain XTS -/
+theorem aesXts_aligned (k m tweak : Bytes) (hc : xtsCheck k m tweak = none) (hm : m.length % 16 = 0) :
+    aesXtsEncrypt c k m tweak = .ok (xtsEnc c (k.take (k.length / 2)) (k.drop (k.length / 2)) tweak m) := by
+  simp only [aesXtsEncrypt, hc, xtsSteal_aligned _ _ _ _ hm]; rfl
 
 theorem aesCcm_roundtrip (h : CryptoLaws c) (k m nonce aad : Bytes) (t : Int) (hp : ccmParamsOk k nonce t = true)
     (hm : m.length < 256 ^ (15 - nonce.length)) :
